@@ -5,7 +5,7 @@ CONSTANTS
   Kind = "nameaddr"
   Atoms <- AtomsQuote
   Prefix <- PfxNone
-  MaxLen = 5
+  MaxLen = 6
   Cfgs <- CfgsNA1
   Junk = 34
   EmitOn = TRUE
